@@ -48,6 +48,7 @@ type Frame struct {
 	inDefers  bool
 	caller    *Frame
 	results   Value
+	merged    []Value // phi values of the next block, precomputed by if-conversion (x_c29.go)
 }
 
 type Violation struct {
@@ -74,6 +75,7 @@ type Interp struct {
 	pc        []*Term
 	decisions []decision
 	dpos      int
+	spec      bool // speculative execution of a pure block (if-conversion, x_c29.go)
 
 	globals  map[*ssa.Global]*Object
 	initDone map[*ssa.Package]bool
@@ -284,6 +286,9 @@ func (in *Interp) branch(c *Term) bool {
 	if c.IsFalse() {
 		return false
 	}
+	if in.spec {
+		panic(specAbort{})
+	}
 	// already decided on this path (the same condition is often re-evaluated,
 	// e.g. when a program is parsed again): no decision, no query
 	if in.pcSet[c.id] {
@@ -401,6 +406,9 @@ func (in *Interp) note(c *Term) {
 
 // choice picks one of n alternatives (all considered feasible).
 func (in *Interp) choice(n int) int {
+	if in.spec {
+		panic(specAbort{})
+	}
 	if in.dpos < len(in.decisions) {
 		d := in.decisions[in.dpos]
 		in.dpos++
@@ -419,6 +427,9 @@ func (in *Interp) choice(n int) int {
 func (in *Interp) concretize(t *Term, max int, what string) int64 {
 	if t.IsConst() {
 		return t.Int64()
+	}
+	if in.spec {
+		panic(specAbort{})
 	}
 	if in.dpos < len(in.decisions) {
 		d := in.decisions[in.dpos]
@@ -832,6 +843,11 @@ func (in *Interp) runBlocks(fr *Frame, b *ssa.BasicBlock) Value {
 			if !ok {
 				break
 			}
+			if fr.merged != nil {
+				phiVals = append(phiVals, fr.merged[nphi])
+				nphi++
+				continue
+			}
 			for i, p := range b.Preds {
 				if p == fr.prev {
 					phiVals = append(phiVals, in.get(fr, phi.Edges[i]))
@@ -843,6 +859,7 @@ func (in *Interp) runBlocks(fr *Frame, b *ssa.BasicBlock) Value {
 		for i := 0; i < nphi; i++ {
 			fr.regs[b.Instrs[i].(*ssa.Phi)] = phiVals[i]
 		}
+		fr.merged = nil
 	next:
 		for _, instr := range b.Instrs[nphi:] {
 			in.steps++
@@ -861,6 +878,12 @@ func (in *Interp) runBlocks(fr *Frame, b *ssa.BasicBlock) Value {
 				var t bool
 				if c.IsConst() {
 					t = c.IsTrue()
+				} else if j := in.tryIfConvert(fr, b, c); j != nil {
+					fr.prev, b = b, j
+					if b.Index <= fr.prev.Index {
+						in.backedge()
+					}
+					break next
 				} else {
 					t = in.branch(c)
 				}
